@@ -124,14 +124,14 @@ def j_opcmd(ctx):
             sent, val = ks[n]
             if n == victim:
                 obs.append(('kill:effect', f'KILL disconnects {n} when issued by an operator', Implies(And(oper, known), sent)))
-                obs.append(('kill:guard', f'KILL by a non-operator does nothing', Implies(Not(anyop), not sent)))
+                obs.append(('kill:guard', f'KILL by a user who is not a (full) operator does nothing', Implies(Not(oper), not sent)))
                 if sent:
                     obs.append(('kill:who', 'the victim is told who killed it and why',
                                 And(M.values_equal(val[0], mkstr(a)), M.values_equal(val[1], mkstr(comment)))))
             else:
                 obs.append(('kill:exact', f'KILL touches nobody else ({n})', not sent))
         n481 = len([l for l in ctx.written if numeric_pred(srv, 481, a)(l)])
-        obs.append(('kill:reply', 'KILL: privilege error for non-operators', Implies(Not(anyop), n481 == 1)))
+        obs.append(('kill:reply', 'KILL: privilege error for everybody but (full) operators', Implies(Not(oper), n481 == 1)))
         obs.append(('kill:reply', 'KILL: no privilege error for operators', Implies(oper, n481 == 0)))
         n401 = len([l for l in ctx.written if numeric_pred(srv, 401, a, victim)(l)])
         obs.append(('kill:reply', 'KILL: 401 for an unknown nick', Implies(And(oper, Not(known)), n401 == 1)))
@@ -142,14 +142,14 @@ def j_opcmd(ctx):
             sent, val = ks[n]
             if applies:
                 obs.append(('die:effect', f'{verb} ends the session of {n} when issued by an operator', Implies(And(oper, pre.user_live(n)), sent)))
-            obs.append(('die:guard', f'{verb} by a non-operator ends no session', Implies(Not(anyop), not sent)))
+            obs.append(('die:guard', f'{verb} by a user who is not a (full) operator ends no session', Implies(Not(oper), not sent)))
             if not applies: obs.append(('die:other-server', f'{verb} naming another server ends no session', not sent))
         if applies:
             obs.append(('die:server', f'{verb} by an operator stops the server', Implies(oper, w.server_quit.sent)))
-        obs.append(('die:server', f'{verb} by a non-operator does not stop the server', Implies(Not(anyop), not w.server_quit.sent)))
+        obs.append(('die:server', f'{verb} by a user who is not a (full) operator does not stop the server', Implies(Not(oper), not w.server_quit.sent)))
         if applies:
             nerr = len([l for l in ctx.written if numeric_pred(srv, 483, a)(l) or numeric_pred(srv, 481, a)(l)])
-            obs.append(('die:reply', f'{verb}: privilege error for non-operators', Implies(Not(anyop), nerr == 1)))
+            obs.append(('die:reply', f'{verb}: privilege error for everybody but (full) operators', Implies(Not(oper), nerr == 1)))
             obs.append(('die:reply', f'{verb}: no privilege error for operators', Implies(oper, nerr == 0)))
     elif verb == 'WALLOPS':
         text = ps[0]
